@@ -320,7 +320,74 @@ def r6_async_generator_cleanup(ctx):
                             % n)
 
 
+def r7_cancelled_contained(ctx):
+    """asyncio: the listener deliberately lets CancelledError through (task
+    cancellation ends it).  Application callbacks run from the listener can
+    raise CancelledError themselves (awaiting a cancelled future); every
+    await of an application coroutine in the functions the listener reaches
+    must therefore contain CancelledError, or one such callback stops the
+    server from reading the channel for good."""
+    m = ctx.model
+    from ..effects import _dynamic_callee
+    top = m.method('AsyncPubSubManager', '_thread')
+    reach = [f for f in m.reachable(top) if f.is_async]
+    n = 0
+    for f in reach:
+        parent = {}
+        for node in ast.walk(f.node):
+            for ch in ast.iter_child_nodes(node):
+                parent[ch] = node
+        # locals that hold the result of a dynamic (application) call
+        app_locals = set()
+        for node in walk_own(f.node):
+            if isinstance(node, ast.Assign) and \
+                    isinstance(node.value, ast.Call) and \
+                    _dynamic_callee(f, node.value):
+                for t in node.targets:
+                    if isinstance(t, ast.Name):
+                        app_locals.add(t.id)
+        for node in walk_own(f.node):
+            if not isinstance(node, ast.Await):
+                continue
+            v = node.value
+            is_app = (isinstance(v, ast.Call) and _dynamic_callee(f, v)) or \
+                (isinstance(v, ast.Name) and v.id in app_locals)
+            if not is_app:
+                continue
+            n += 1
+            guarded = False
+            x = node
+            while x in parent:
+                pr = parent[x]
+                if isinstance(pr, ast.Try) and x in pr.body:
+                    for h in pr.handlers:
+                        if h.type is not None and \
+                                'CancelledError' in U(h.type) and not any(
+                                    isinstance(y, ast.Raise)
+                                    for y in ast.walk(h)):
+                            guarded = True
+                        if h.type is None or 'BaseException' in U(h.type):
+                            if not any(isinstance(y, ast.Raise)
+                                       for y in ast.walk(h)):
+                                guarded = True
+                x = pr
+            ctx.check(guarded, f.qualname, 'await of an application '
+                      'coroutine (%s) contains CancelledError' % U(v)[:40],
+                      key='cancelled-escapes', reason='a CancelledError '
+                      'raised by the application coroutine awaited at line '
+                      '%d escapes into the pub/sub listener, which treats '
+                      'it as its own cancellation and stops for good'
+                      % node.lineno, where=where(f, node))
+    if n < 3:
+        raise AnalysisError('C15.R7 found only %d awaited application '
+                            'coroutines on the listener path' % n)
+
+
 def run(ctx):
+    ctx.rule('C15.R7', 'asyncio: CancelledError raised by application '
+             'coroutines is contained before it reaches the listener',
+             floor=3)
+    r7_cancelled_contained(ctx)
     ctx.rule('C15.R6', 'async listen generators: no awaited clean-up on '
              'shared state around a yield', floor=3)
     r6_async_generator_cleanup(ctx)
